@@ -503,6 +503,7 @@ func (r *FnRun) execSimple(fr *Frame, st *State, in ssa.Instruction) {
 		fr.vals[x] = r.selectOp(fr, st, x)
 	case *ssa.Send:
 		r.note("channel send treated as non-blocking no-op")
+		r.countChanOp(st, "sends", r.val(fr, st, x.Chan), TTrue)
 	case *ssa.SliceToArrayPointer, *ssa.MultiConvert:
 		unsup("instruction %T", in)
 	default:
